@@ -1,0 +1,19 @@
+//go:build verif
+
+package immunitycache
+
+// VerifChunkIndex returns the index of the chunk that holds (or would hold) the key.
+// Read-only accessor for the simulation checks in /verif; compiled only with -tags verif.
+func (ic *ImmunityCache) VerifChunkIndex(key []byte) uint32 {
+	return ic.getChunkIndexByKey(string(key))
+}
+
+// VerifChunkKeys returns, per chunk, the keys it currently holds in insertion order.
+func (ic *ImmunityCache) VerifChunkKeys() [][][]byte {
+	chunks := ic.getChunksWithLock()
+	result := make([][][]byte, len(chunks))
+	for i, chunk := range chunks {
+		result[i] = chunk.KeysInOrder()
+	}
+	return result
+}
